@@ -157,6 +157,16 @@ def rule_r2(ctx) -> List[R.Inst]:
     ps = params_of(fn.node)
     gap, thres = ps[1], ps[2]
     insts = []
+    # (0) the caller's gap and threshold are used as given (0 is a legal value for both)
+    from .. import cmp as P
+    for prm in (gap, thres):
+        rb = P.rebinds(fn.node, prm)
+        if rb:
+            insts.append(R.viol(rid, f"parameter:{prm}", file, rb[0].lineno,
+                                f"'{prm}' is replaced before use ('{unparse(rb[0])}'): with `x or default` an explicit 0 silently becomes "
+                                f"the default, so gap = 0 / threshold = 0 do not follow the stated rule", construct=unparse(rb[0])))
+        else:
+            insts.append(R.ok(rid, f"parameter:{prm}", file, fn.node.lineno, idiom=f"'{prm}' is never rebound"))
     # (a) sorted by offset, then grouped by column
     grp = None
     for n in walk_no_nested(fn.node):
@@ -238,6 +248,11 @@ def rule_r2(ctx) -> List[R.Inst]:
         if isinstance(t, ast.Compare) and len(t.ops) == 1:
             l, r = unparse(t.left), unparse(t.comparators[0])
             op = type(t.ops[0])
+            # a local that folds the last-note case into the compared value: x = length if isnan(diff) else diff - gap
+            for side in (l, r):
+                ds = local_defs(inner, side) if side.isidentifier() else []
+                if len(ds) == 1 and isinstance(ds[0], ast.IfExp) and "isnan(diff)" in unparse(ds[0].test).replace("np.", "").replace("pd.", ""):
+                    return "folded"
             if l == "inv_length" and r == thres:
                 return {ast.GtE: "long_enough", ast.Gt: "long_enough_strict", ast.Lt: "!long_enough", ast.LtE: "!long_enough_strict"}.get(op)
             if r == "inv_length" and l == thres:
@@ -259,7 +274,13 @@ def rule_r2(ctx) -> List[R.Inst]:
         if len(apps) == 1:
             kw = ctor_kwargs(apps[0][1].args[0]) or {}
             table[tuple(sorted(facts.items()))] = (apps[0][0], unparse(kw["length"]) if "length" in kw else None)
-    if und:
+    folded = any(cls(t) == "folded" for conds, _, _ in paths for t, _ in conds)
+    if folded:
+        insts.append(R.viol(rid, "decision-table", file, inner.lineno,
+                            "the last note of a column is sent through the threshold test with its own length: a final hold shorter than "
+                            "the threshold is turned into a hit, although the last note keeps its kind and length",
+                            construct="last-note case folded into the threshold comparison"))
+    elif und:
         insts.append(R.undec(rid, "decision-table", file, inner.lineno, "a branch condition is not one of: last note / was a hit / long enough"))
     else:
         want = {
@@ -370,7 +391,7 @@ def rule_r4(ctx) -> List[R.Inst]:
 
 SPECS = [
     RuleSpec("C17.R1", rule_r1, 6, "A8", "one output note per input note on every path, carrying offset and column; positional row unpack"),
-    RuleSpec("C17.R2", rule_r2, 4, "A7", "sorted by time then grouped by column; gap = next - own; length = gap - 'gap'; decision table"),
+    RuleSpec("C17.R2", rule_r2, 6, "A7", "sorted by time then grouped by column; gap = next - own; length = gap - 'gap'; decision table"),
     RuleSpec("C17.R3", rule_r3, 4, "A3", "works on a deep copy; reassigns only hits and holds, rebuilt by their own classes"),
     RuleSpec("C17.R4", rule_r4, 7, "A2", "lists selected by the note filter = lists rewritten, for every chart class"),
 ]
